@@ -1,4 +1,5 @@
 import Jwt.Lemmas.Policy
+import Jwt.Generated.DispatchTables
 import Jwt.Props.C01
 import Jwt.Lemmas.Builder
 /-!
@@ -15,6 +16,25 @@ theorem C09_gate (a : Alg) (k : KeyItem) :
     (checkHmac a k = none ↔ a.isHmac = true ∧ strengthOk a k) ∧
     (checkKeyBits a k = none ↔ a.isPk = true ∧ strengthOk a k) :=
   ⟨checkHmac_none_iff a k, checkKeyBits_none_iff a k⟩
+
+/-- **No path to a primitive goes round the gate** (generated from `jwt_sign`, `jwt_verify_sig` and
+`_verify_sha_hmac` of `jwt.c`): signing calls `__check_hmac` before `sign_sha_hmac` for HS256/384/512 and
+`__check_key_bits` before the provider's `sign_sha_pem` for the eleven public-key algorithms, leaving the case
+when the gate refuses; verification calls `__check_key_bits` before decoding and handing the signature to
+the provider's `verify_sha_pem`, and for HS* tests the key type and recomputes the MAC through `jwt_sign`
+(which carries the HMAC gate) — never through `sign_sha_hmac` directly. Every algorithm with a gate is
+dispatched. -/
+theorem C09_dispatch :
+    (∀ r ∈ Generated.signDispatch,
+      (r.1.isHmac = true → r.2 = ("__check_hmac", "sign_sha_hmac", true)) ∧
+      (r.1.isPk = true → r.2 = ("__check_key_bits", "jwt_ops->sign_sha_pem", true)) ∧ (r.1.isHmac = true ∨ r.1.isPk = true)) ∧
+    (∀ r ∈ Generated.verifyDispatch,
+      (r.1.isHmac = true → r.2.2.1 = "_verify_sha_hmac") ∧
+      (r.1.isPk = true → r.2 = ("__check_key_bits", "jwt_ops->verify_sha_pem", true)) ∧ (r.1.isHmac = true ∨ r.1.isPk = true)) ∧
+    Generated.verifyHmacVia = "jwt_sign" ∧ Generated.verifyHmacKtyGuard = true ∧
+    (∀ a ∈ [Alg.hs256, .hs384, .hs512, .rs256, .rs384, .rs512, .ps256, .ps384, .ps512, .es256, .es256k, .es384, .es512, .eddsa],
+      a ∈ Generated.signDispatch.map (·.1) ∧ a ∈ Generated.verifyDispatch.map (·.1)) := by
+  decide
 
 /-- **The floor is the one in the source** (generated from `__check_hmac` / `__check_key_bits` of `jwt.c`):
 the rule every C09 theorem is stated with, `strengthOk`, holds for an algorithm and a key exactly when the
